@@ -46,6 +46,10 @@ pub struct Upd {
     pub v2: Vec<u8>,
     /// indices of pool updates that happened before this one
     pub preds: BTreeSet<usize>,
+    /// the local operation that produced it (None for clean-up events of remote applies)
+    pub op: Option<Op>,
+    /// for MClear: keys visible to the author before the call
+    pub cleared: Vec<String>,
 }
 
 type Capture = Rc<RefCell<Vec<(bool, Vec<u8>)>>>;
@@ -175,6 +179,12 @@ impl World {
             Act::Local { r, op } => {
                 let rep = &self.reps[*r];
                 rep.capture.borrow_mut().clear();
+                let mut cleared = Vec::new();
+                if let Op::MClear { t } = op {
+                    if let Some(Node::Map(m)) = node_resolve(&rep.dump(), t) {
+                        cleared = m.keys().cloned().collect();
+                    }
+                }
                 {
                     let mut txn = rep.doc.transact_mut();
                     apply_real(&rep.roots, &mut txn, rep.cfg.kind(), op)?;
@@ -197,6 +207,8 @@ impl World {
                         v1: (*a).clone(),
                         v2: (*b).clone(),
                         preds: self.reps[*r].known.clone(),
+                        op: Some(op.clone()),
+                        cleared,
                     });
                     self.reps[*r].known.insert(idx);
                 }
@@ -216,13 +228,15 @@ impl World {
                     let v1 = evs.iter().find(|e| !e.0).map(|e| e.1.clone());
                     let v2 = evs.iter().find(|e| e.0).map(|e| e.1.clone());
                     if let (Some(v1), Some(v2)) = (v1, v2) {
-                        if extra_deletes(&self.pool[i].v1, &v1)? {
+                        if extra_deletes(&self.pool[i].v1, &v1, &self.reps[*dst])? {
                             let idx = self.pool.len();
                             self.pool.push(Upd {
                                 author: *dst,
                                 v1,
                                 v2,
                                 preds: self.reps[*dst].known.clone(),
+                                op: None,
+                                cleared: Vec::new(),
                             });
                             self.reps[*dst].known.insert(idx);
                         }
@@ -476,7 +490,11 @@ impl Receiver {
             Edge::Diffed { i, v2 } => {
                 let sv = {
                     let txn = self.rep().doc.transact();
-                    txn.state_vector().encode_v1()
+                    if *v2 {
+                        txn.state_vector().encode_v2()
+                    } else {
+                        txn.state_vector().encode_v1()
+                    }
                 };
                 let bytes = if *v2 {
                     yrs::diff_updates_v2(&pool[*i].v2, &sv)
@@ -726,8 +744,11 @@ pub fn show_store(d: &yrs::verif::StoreDump) -> String {
     s
 }
 
-/// does the emitted event delete ids that the applied update did not delete?
-pub fn extra_deletes(applied_v1: &[u8], event_v1: &[u8]) -> Result<bool, String> {
+/// Does the emitted event delete ids that the applied update did not delete, other than
+/// map/attribute entries that lost on integration (those deletions are implied by the writes
+/// themselves and are repeated by every replica that integrates both)? What remains are
+/// formatting marks removed by the receiver's automatic clean-up: operations of its own.
+pub fn extra_deletes(applied_v1: &[u8], event_v1: &[u8], rep: &Replica) -> Result<bool, String> {
     let a = Update::decode_v1(applied_v1).map_err(|e| format!("decode error: {}", e))?;
     let e = Update::decode_v1(event_v1).map_err(|e| format!("event decode error: {}", e))?;
     let da = yrs::verif::update_dump(&a).delete_set;
@@ -737,5 +758,25 @@ pub fn extra_deletes(applied_v1: &[u8], event_v1: &[u8]) -> Result<bool, String>
             .flat_map(|(c, s, e)| (*s..*e).map(move |k| (*c, k)))
             .collect()
     };
-    Ok(!pts(&de).is_subset(&pts(&da)))
+    let pa = pts(&da);
+    let extra: Vec<(u64, u32)> = pts(&de).into_iter().filter(|p| !pa.contains(p)).collect();
+    if extra.is_empty() {
+        return Ok(false);
+    }
+    let sd = rep.store_dump();
+    for p in extra {
+        for (c, list) in &sd.clients {
+            if *c != p.0 {
+                continue;
+            }
+            for b in list {
+                if b.id.1 <= p.1 && p.1 < b.id.1 + b.len {
+                    if b.kind == yrs::verif::BlockKind::Item && b.parent_sub.is_none() {
+                        return Ok(true);
+                    }
+                }
+            }
+        }
+    }
+    Ok(false)
 }
